@@ -12,30 +12,90 @@ type fieldConstraints struct {
 }
 
 func (check fieldConstraints) CheckFieldPreConstraints(r *FieldRequest, hnd *ValueHandle) (bool, error) {
-	t := r.Meta.Type()
 	if hnd.Val == nil {
 		return true, nil
 	}
-
-	switch t.Format() {
-	case val.FmtString:
-		if err := check.checkString(hnd.Val.String(), t); err != nil {
-			return false, err
-		}
-	case val.FmtStringList:
-		strs := hnd.Val.Value().([]string)
-		for _, s := range strs {
-			if err := check.checkString(s, t); err != nil {
-				return false, err
-			}
-		}
-	}
-	if t.Format().IsNumeric() {
-		if err := check.checkRange(hnd.Val, t); err != nil {
-			return false, err
-		}
+	if err := check.checkType(hnd.Val, r.Meta.Type(), 0); err != nil {
+		return false, err
 	}
 	return true, nil
+}
+
+// the restrictions of the type a value has to meet: for a leafref those of the leaf it points
+// to, for a union those of one of its members, for a list each of its items
+func (check fieldConstraints) checkType(v val.Value, t *meta.Type, hops int) error {
+	switch t.Format().Single() {
+	case val.FmtLeafRef:
+		if hops > 32 {
+			return nil
+		}
+		return check.checkType(v, t.Resolve(), hops+1)
+	case val.FmtUnion:
+		return check.checkUnion(v, t, hops)
+	}
+	if l, isList := v.(val.Listable); isList && v.Format().IsList() {
+		for i := 0; i < l.Len(); i++ {
+			if err := check.checkOne(l.Item(i), t); err != nil {
+				return err
+			}
+		}
+		return nil
+	}
+	return check.checkOne(v, t)
+}
+
+func (check fieldConstraints) checkOne(v val.Value, t *meta.Type) error {
+	switch {
+	case v.Format() == val.FmtString:
+		return check.checkString(v.String(), t)
+	case v.Format() == val.FmtBinary:
+		if b, isBytes := v.Value().([]byte); isBytes {
+			// the length of a binary is its number of octets (RFC7950 Sec 9.8.1)
+			return check.lenCheckN(len(b), v.String(), t.Length())
+		}
+	case v.Format().IsNumeric():
+		return check.checkRange(v, t)
+	}
+	return nil
+}
+
+// a value of a union is a value of one of its member types: the first member the value
+// converts to does not decide, a member whose restrictions it meets does (RFC7950 Sec 9.12)
+func (check fieldConstraints) checkUnion(v val.Value, t *meta.Type, hops int) error {
+	if l, isList := v.(val.Listable); isList && v.Format().IsList() {
+		for i := 0; i < l.Len(); i++ {
+			if err := check.checkUnion(l.Item(i), t, hops); err != nil {
+				return err
+			}
+		}
+		return nil
+	}
+	var first error
+	for _, member := range t.Union() {
+		as := v
+		if member.Format().Single() != v.Format() && member.Format().Single() != val.FmtLeafRef && member.Format().Single() != val.FmtUnion {
+			// e.g. the int8 member took the number 9 that its range refuses: does the string member take "9"?
+			var err error
+			if as, err = NewValue(member, v.Value()); err != nil || as == nil {
+				continue
+			}
+			if as.Format().IsList() {
+				continue
+			}
+		}
+		err := check.checkType(as, member, hops+1)
+		if err == nil {
+			return nil
+		}
+		if first == nil {
+			first = err
+		}
+	}
+	if first == nil {
+		// no member is of the value's kind: conversion would have refused it, nothing to add here
+		return nil
+	}
+	return fmt.Errorf("'%s' is not a value of any member of the union. %w", v, first)
 }
 
 func (check fieldConstraints) checkString(s string, t *meta.Type) error {
@@ -73,12 +133,17 @@ func (fieldConstraints) patternCheck(s string, patterns []*meta.Pattern) error {
 	return fmt.Errorf("'%s' violated one or more patterns", s)
 }
 
-func (fieldConstraints) lenCheck(s string, lengths []*meta.Range) error {
+func (check fieldConstraints) lenCheck(s string, lengths []*meta.Range) error {
+	// length counts characters
+	return check.lenCheckN(utf8.RuneCountInString(s), s, lengths)
+}
+
+func (fieldConstraints) lenCheckN(count int, s string, lengths []*meta.Range) error {
 	if len(lengths) == 0 {
 		return nil
 	}
-	// length counts characters and has to be allowed by every level of the typedef chain
-	n := val.Int32(utf8.RuneCountInString(s))
+	// the length has to be allowed by every level of the typedef chain
+	n := val.Int32(count)
 	for _, length := range lengths {
 		if err := length.CheckValue(n); err != nil {
 			return fmt.Errorf("string length outside allowed ranges. %s", s)
